@@ -34,9 +34,14 @@ package smf
 //@ loop 0 invariant forall c int :: 0 <= c && c < 16 ==> forall j int :: 0 <= j && j < len(channelTracks[c]) ==> channelTracks[c][j] != nil
 //@ loop 0 invariant forall c int :: 0 <= c && c < 16 ==> forall j int :: 0 <= j && j < len(channelTracks[c]) ==> (isCh(channelTracks[c][j].Event.Message) && (channelTracks[c][j].Event.Message[0] & 0x0F) == c)
 //@ loop 0 invariant forall j int :: 0 <= j && j < len(metaTrack) ==> !isCh(metaTrack[j].Event.Message)
+// nothing is lost or made up at the split: every event read so far is on exactly one of the seventeen lists
+//@ loop 0 invariant len(metaTrack) + len(channelTracks[0]) + len(channelTracks[1]) + len(channelTracks[2]) + len(channelTracks[3]) + len(channelTracks[4]) + len(channelTracks[5]) + len(channelTracks[6]) + len(channelTracks[7]) + len(channelTracks[8]) + len(channelTracks[9]) + len(channelTracks[10]) + len(channelTracks[11]) + len(channelTracks[12]) + len(channelTracks[13]) + len(channelTracks[14]) + len(channelTracks[15]) == rangeindex + 1
 //@ loop 0 decreases len(src.Tracks[0]) - rangeindex
 //@ loop 1 invariant -1 <= rangeindex && rangeindex < len(metaTrack)
 //@ loop 1 invariant forall j int :: 0 <= j && j < len(metaTarget) ==> !isCh(metaTarget[j].Message)
+// the deltas are re-derived as differences of the absolute ticks (first event: its absolute tick)
+//@ loop 1 invariant forall j int :: 0 <= j && j < len(metaTrack) ==> metaTrack[j] != nil
+//@ loop 1 invariant (rangeindex == -1 ==> lastAbs == 0) && (rangeindex >= 0 ==> lastAbs == metaTrack[rangeindex].AbsTicks)
 //@ loop 1 decreases len(metaTrack) - rangeindex
 //@ loop 2 invariant 0 <= i && i <= 16 && dest.format == 1 && dest.TimeFormat == src.TimeFormat
 //@ loop 2 invariant 1 <= len(dest.Tracks) && len(dest.Tracks) <= 1 + i
@@ -44,6 +49,12 @@ package smf
 //@ loop 3 invariant -1 <= rangeindex && rangeindex < len(evts) && dest.format == 1 && dest.TimeFormat == src.TimeFormat && 0 <= i && i < 16
 //@ loop 3 invariant 1 <= len(dest.Tracks) && len(dest.Tracks) <= 1 + i
 //@ loop 3 invariant len(t) == rangeindex + 1 && forall j int :: 0 <= j && j < len(t) ==> (isCh(t[j].Message) && (t[j].Message[0] & 0x0F) == uint8(i))
+//@ loop 3 invariant forall j int :: 0 <= j && j < len(evts) ==> evts[j] != nil
+//@ loop 3 invariant (rangeindex == -1 ==> lastAbs == 0) && (rangeindex >= 0 ==> lastAbs == evts[rangeindex].AbsTicks)
+//@ loop 3 invariant rangeindex >= 0 ==> t[0].Delta == uint32(evts[0].AbsTicks)
+//@ loop 3 invariant rangeindex >= 1 ==> t[rangeindex].Delta == uint32(evts[rangeindex].AbsTicks - evts[rangeindex-1].AbsTicks)
+// (checked at every iteration for the event just added; the same statement for all earlier events at once does not discharge)
+//@ loop 3 invariant rangeindex >= 0 ==> t[rangeindex].Message == evts[rangeindex].Event.Message
 //@ loop 3 decreases len(evts) - rangeindex
 
 // the order of track events (sort.Sort in ConvertToSMF1 and in the sequencer's export): by absolute tick
